@@ -226,6 +226,11 @@ def check_roundtrip(ctx: core.Ctx, c: Any, desc: str, wit: dict[str, Any]) -> No
     try:
         c2 = parse_constraint(s)
     except Exception as e:  # noqa: BLE001
+        if any(x.text.endswith(("-", "_", ".")) for x in V.bounds(c)):
+            # known finding: a bound keeps its raw spelling; a spelling ending in a separator (`1.0post-`, valid for VERSION_PATTERN:
+            # implicit post number) defeats the and-separator's look-behind when the constraint text is read back
+            ctx.violate("version-text-trailing-separator", f"text {s!r} of {desc} does not parse back: a bound's raw text ends in a separator", wit)
+            return
         ctx.violate(f"reparse-fails:{desc}", f"text {s!r} of {desc} does not parse back: {type(e).__name__}", wit)
         return
     bs = V.bounds(c) + V.bounds(c2)
